@@ -15,6 +15,10 @@ Definition interp_fn_lib (consts : list (string * value)) (f : fnid) (v : value)
   else if str_eqb f "m_not" then match v with VBool b => Ok (VBool (negb b)) | _ => Panic "model: m_not" end
   else if str_eqb f "a_nonempty" then
     match v with VStr s => if str_eqb s "" then Err (custom "empty") else Ok (VStr s) | _ => Panic "model: a_nonempty" end
+  else if str_eqb f "m_inc" then match v with VInt z => Ok (VInt (z + 1)) | _ => Panic "model: m_inc" end
+  else if str_eqb f "a_small" then
+    match v with VInt z => if (z <? 4)%Z then Ok (VInt z) else Err (custom "big") | _ => Panic "model: a_small" end
+  else if str_eqb f "d_list" then Ok (VList [VInt 7; VInt 8])
   else if str_eqb f "d_seven" then Ok (VInt 7)
   else if str_eqb f "d_hello" then Ok (VStr "hello")
   else if (str_eqb f "cm_id" || str_eqb f "ca_ok")%bool then Ok v
